@@ -794,7 +794,8 @@ def _original_function(fn, name, module_file):
     return None
 
 
-def install_targeted_yield(p: float = 0.3, max_sleep: float = 0.004, seed: int = 0, which: str = "emission"):
+def install_targeted_yield(p: float = 0.3, max_sleep: float = 0.004, seed: int = 0, which: str = "emission",
+                           extra_long=()):
     """LINE events restricted to a handful of code objects (sys.monitoring local events): with probability p the
     thread sleeps up to max_sleep at a line boundary inside the snapshot hand-off functions.  Cheap enough for the
     quick tier; it widens windows that exist anyway (a thread can be pre-empted at any line boundary)."""
@@ -864,7 +865,7 @@ def install_targeted_yield(p: float = 0.3, max_sleep: float = 0.004, seed: int =
         for c in codes:
             mon.set_local_events(tool, c, mon.events.LINE)
             counter["code_objects"] += 1
-            if c.co_name in ("drain", "UpdateStateBasedOnEngine", "finish", "stop_engine"):
+            if c.co_name in ("drain", "UpdateStateBasedOnEngine", "finish", "stop_engine") or c.co_name in extra_long:
                 # finish(): a thread that loses the CPU between asking its engine to stop and the next statement
                 long_pause.add(c)
     _targeted_installed = True
